@@ -381,6 +381,54 @@ class _Proxy:
     def isinf(self, x):
         return self._pred(x, _isinf1, _np.isinf)
 
+    def isneginf(self, x):
+        return self._pred(x, lambda v: (v.k == NINF) if isinstance(v, SymFloat) else (v == -math.inf), _np.isneginf)
+
+    def isposinf(self, x):
+        return self._pred(x, lambda v: (v.k == PINF) if isinstance(v, SymFloat) else (v == math.inf), _np.isposinf)
+
+    def nan_to_num(self, x, copy=True, nan=0.0, posinf=None, neginf=None):
+        big = float(_np.finfo(float).max)
+        posinf = big if posinf is None else posinf
+        neginf = -big if neginf is None else neginf
+
+        def one(v):
+            v = _f(v)
+            if _isnan1(v):
+                return nan
+            if isinstance(v, SymFloat):
+                return posinf if v.k == PINF else neginf if v.k == NINF else v
+            return posinf if v == math.inf else neginf if v == -math.inf else v
+        if isinstance(x, (SymFloat, int, float)):
+            return one(x)
+        x = self.asarray(x)
+        if x.dtype != object:
+            return _post(_np.nan_to_num(x, nan=nan, posinf=posinf, neginf=neginf))
+        out = _np.empty(x.shape, dtype=object)
+        for idx in _np.ndindex(*x.shape):
+            out[idx] = one(x[idx])
+        return out if x.ndim else out[()]
+
+    def isclose(self, a, b, rtol=1e-05, atol=1e-08, equal_nan=False):
+        a, b = self.asarray(a), self.asarray(b)
+        if not (_has_sym(a) or _has_sym(b)):
+            return _np.isclose(conc(a) if a.dtype == object else a, conc(b) if b.dtype == object else b,
+                               rtol=rtol, atol=atol, equal_nan=equal_nan)
+        a, b = _np.broadcast_arrays(a, b)
+        out = _np.empty(a.shape, dtype=bool)
+        for idx in _np.ndindex(*a.shape):
+            u, v = _f(a[idx]), _f(b[idx])
+            if _isnan1(u) or _isnan1(v):
+                out[idx] = bool(equal_nan and _isnan1(u) and _isnan1(v))
+            elif not _isfin1(u) or not _isfin1(v):
+                out[idx] = bool(lift(u) == v)
+            else:
+                out[idx] = bool(abs(lift(u) - v) <= atol + rtol * abs(lift(v)))
+        return out
+
+    def allclose(self, a, b, rtol=1e-05, atol=1e-08, equal_nan=False):
+        return bool(_np.all(self.isclose(a, b, rtol=rtol, atol=atol, equal_nan=equal_nan)))
+
     # -- elementwise -----------------------------------------------------------
     def maximum(self, a, b):
         r = _vmax(self.asarray(a), self.asarray(b))
